@@ -9,12 +9,17 @@ Open Scope Z_scope.
 (* identifiers from m on are unused: no block has one, no pointer goes there *)
 Definition unused_from (g : graph) (m : Z) : Prop := forall m', m <= m' -> fresh g m'.
 Definition no_pred (g : graph) (e : Z) : Prop := forall k n, lookup g k = Some n -> points_to n e = false.
-(* the walks from e in g and from e' in g' end at the same exits *)
+(* the walks from e in g and from e' in g' end at the same exits: a walk of g that ends within n steps is matched by a walk of g'
+   that ends at the same exit within the same n steps (merging never lengthens a walk), and g' has no other walks *)
 Definition same_walks (g : graph) (e : Z) (g' : graph) (e' : Z) : Prop :=
-  forall env x, (exists n, walk n g env e = Some x) <-> (exists n, walk n g' env e' = Some x).
-Lemma same_walks_refl g e : same_walks g e g e.  Proof. intros env x. reflexivity. Qed.
+  forall env x, (forall n, walk n g env e = Some x -> walk n g' env e' = Some x) /\
+                ((exists n, walk n g' env e' = Some x) -> exists n, walk n g env e = Some x).
+Lemma same_walks_refl g e : same_walks g e g e.  Proof. intros env x. split; auto. Qed.
 Lemma same_walks_trans g1 e1 g2 e2 g3 e3 : same_walks g1 e1 g2 e2 -> same_walks g2 e2 g3 e3 -> same_walks g1 e1 g3 e3.
-Proof. intros A B env x. rewrite (A env x). apply B. Qed.
+Proof. intros A B env x. destruct (A env x) as [A1 A2]. destruct (B env x) as [B1 B2]. split; [intros n W; exact (B1 n (A1 n W)) | intros W; exact (A2 (B2 W))]. Qed.
+(* the weaker reading: the same exits are reached *)
+Lemma same_walks_iff g e g' e' : same_walks g e g' e' -> forall env x, (exists n, walk n g env e = Some x) <-> (exists n, walk n g' env e' = Some x).
+Proof. intros A env x. destruct (A env x) as [A1 A2]. split; [intros [n W]; exists n; exact (A1 n W) | exact A2]. Qed.
 
 Lemma in_keep_first x : forall l seen, In x (keep_first l seen) <-> In x l /\ ~ In x seen.
 Proof.
@@ -225,7 +230,7 @@ Proof.
     pose proof (planned_merge_is_sound (d_g s) a (d_fresh s) k _ Je Hfr Ea) as S.
     replace ((d_entry s =? a) || (d_entry s =? b)) with (d_entry s =? a) by (replace (d_entry s =? b) with false by lia; now rewrite orb_false_r).
     intros env x. destruct (S env (d_entry s) ltac:(lia)) as [F B]. split.
-    + intros [n W]. exists n. exact (F n x W).
+    + intros n W. exact (F n x W).
     + intros [n W]. exact (B n x W).
 Qed.
 Lemma add_done_inv g0 e0 s a : Inv g0 e0 s -> Inv g0 e0 (add_done s a).
